@@ -18,6 +18,7 @@ import (
 	"strconv"
 	"strings"
 	"sync"
+	"syscall"
 	"time"
 
 	"verifharness/wire"
@@ -53,12 +54,12 @@ type Known struct {
 	ID       string `json:"id"`
 	What     string `json:"what"`
 	Match    struct {
-		SigPrefix     string `json:"sig_prefix,omitempty"`
-		PanicContains string `json:"panic_contains,omitempty"`
-		FrameContains string `json:"frame_contains,omitempty"`
-		ErrContains   string `json:"err_contains,omitempty"`
-		SrcRegex      string `json:"src_regex,omitempty"`
-		SrcEquals     string `json:"src_equals,omitempty"`
+		SigPrefix     string  `json:"sig_prefix,omitempty"`
+		PanicContains string  `json:"panic_contains,omitempty"`
+		FrameContains string  `json:"frame_contains,omitempty"`
+		ErrContains   string  `json:"err_contains,omitempty"`
+		SrcRegex      string  `json:"src_regex,omitempty"`
+		SrcEquals     string  `json:"src_equals,omitempty"`
 		TextEquals    *string `json:"text_equals,omitempty"`
 	} `json:"match"`
 	re *regexp.Regexp
@@ -398,6 +399,7 @@ type ExecOpts struct {
 	Race     bool
 	Env      []string
 	WallSecs int // per-batch wall clock watchdog (inconclusive when it fires)
+	UID      int // > 0 (and the driver runs as root): the worker runs as this user and group, not as the owner of the scratch files
 }
 
 // Exec runs items 0..n-1 (produced on demand by gen, which must be a pure function of i)
@@ -518,6 +520,16 @@ func (r *Run) runBatch(k int, lo, hi int, opts ExecOpts, gen func(i int) *Item) 
 		cmd.Stderr = ef
 		cmd.Stdout = sf
 		cmd.Dir = r.WorkDir
+		if opts.UID > 0 && os.Geteuid() == 0 {
+			// the worker's own output files belong to it; everything else stays root's
+			for _, pth := range []string{outPath, outPath + ".guard"} {
+				if fh, err := os.OpenFile(pth, os.O_CREATE|os.O_WRONLY, 0o644); err == nil {
+					fh.Close()
+					os.Chown(pth, opts.UID, opts.UID)
+				}
+			}
+			cmd.SysProcAttr = &syscall.SysProcAttr{Credential: &syscall.Credential{Uid: uint32(opts.UID), Gid: uint32(opts.UID)}}
+		}
 		if err := cmd.Start(); err != nil {
 			fatal("start worker: %v", err)
 		}
